@@ -16,6 +16,7 @@ ASSUMPTIONS = [
     "SVD-compressed outputs are compared with rtol 1e-6 only when n_components >= rank of the uncompressed matrix "
     "(the generator uses small vocabularies so that this holds); accuracy of sklearn's SVD is not verified",
     "estimators get integer random_state",
+    "CountFeatureCompression: n_components is either < n_features with n_components <= n_samples, or >= n_features (no-compression branch); n_samples < n_components < n_features is not generated (sklearn's randomized_svd is undefined there)",
 ]
 NWORKERS = {"quick": 6, "thorough": 12}
 KINDS = E.ALL_VECTORIZERS + E.TRANSFORMERS
@@ -50,6 +51,18 @@ def _variant(case, rng):
         p.update(min_occurrences=2); nt = True
     if k == "histogram":
         nt = p.get("append_outlier_bins") or p.get("strategy") == "quantile"
+    if k == "countcompress" and rng.random() < 0.7:
+        p["rescaling_power"] = rng.choice([0.25, 0.75, 1.0, 0.33]); nt = True
+        if rng.random() < 0.5:
+            # >= rank, so the premise of the SVD clause holds outright: either the whole feature space (the
+            # transformer's "no compression" branch) or min(shape) when that is smaller than n_features
+            p["n_components"] = rng.choice([len(case["X"][0]), min(len(case["X"]), len(case["X"][0]))])
+    if k == "rowdenoise" and rng.random() < 0.5:
+        p["normalize"] = True; nt = True
+    if k == "kde" and rng.random() < 0.5:
+        p["kernel"] = rng.choice(["tophat", "epanechnikov", "linear"]); nt = True
+    if k == "slidingwindow" and rng.random() < 0.5:
+        p["pad_width"] = 1; p["pad_value"] = 0; nt = True
     if k == "infoweight" and rng.random() < 0.5:
         p.update(prior_strength=0.5, approx_prior=False); nt = True
     out = dict(case, params=p)
